@@ -460,6 +460,8 @@ TRIAGE: list[tuple[str, str, str, str]] = [
      "allOf over a definition that is an enum: the derived class inherits from an Enum that has members (the input is unsatisfiable as an object schema; not name binding)"),
     (r"^PydanticUserError: `RootModel` does not support setting `model_config\['extra'\]`", "other_property", "C14 (representation-only options) / C03 (module not importable)",
      "--allow-extra-fields writes model_config = ConfigDict(extra='allow') into a RootModel class, which pydantic v2 refuses when the class is created (option handling, not name binding)"),
+    (r"^TypeError: Cannot subclass typing\.Optional\[", "other_property", "C14 (--reuse-model) / C06 / C03 (module not importable)",
+     "--reuse-model makes a duplicate of a nullable root model inherit from the first one and writes the base as the reference's type hint: `class Tag(Optional[Item])` (every name is bound; the base is not a class)"),
     (r"^RuntimeError: no validator found for <class 'collections\.abc\.", "other_property", "C14 (representation-only options) / C13",
      "--use-generic-container-types with --use-standard-collections writes collections.abc.Sequence/Mapping/Set, which pydantic v1 (here: pydantic.v1 on Python 3.12) cannot validate (spelling option, not name binding)"),
     (r"^ValueError: On field \".*\" the following field constraints are set but not enforced", "other_property", "C04 / C14 (known finding: unenforced_field_constraints)",
